@@ -338,7 +338,21 @@ class Witness(threading.Thread):
             p._pyroRelease()
         except Exception as x:
             self.connected.set()
-            self.problems.append("witness %d failed after %d calls: %r" % (self.wid, self.calls, x))
+            where = ""
+            try:
+                # direct evidence for the witness's report: what the daemon's threads are doing at this moment (no reply within the watchdog)
+                import sys
+                import traceback
+                frames = sys._current_frames()
+                parts = []
+                for th in threading.enumerate():
+                    if th.name.startswith(("daemon-loop", "Pyro-Worker", "Thread-")) and th.ident in frames and th is not threading.current_thread():
+                        fr = traceback.extract_stack(frames[th.ident])[-3:]
+                        parts.append("%s: %s" % (th.name, " < ".join("%s:%d %s" % (f.filename.rsplit("/", 1)[-1], f.lineno, f.name) for f in reversed(fr))))
+                where = " ; server threads: " + " | ".join(parts[:6])
+            except Exception:
+                pass
+            self.problems.append("witness %d failed after %d calls (this call sent %.1f s ago): %r%s" % (self.wid, self.calls, time.monotonic() - locals().get("t_send", time.monotonic()), x, where))
 
 
 def attack_one(fx, P, ser, phase, label, data, ending, stall, rec, cfgkey):
